@@ -1082,3 +1082,175 @@ def show(t, depth=0):
     if k in ("payload", "some", "item", "elemof", "errpayload", "acc"):
         return "%s(%s)" % (k, s(t[1]))
     return str(t)[:80]
+
+
+# ----------------------------------------------------------------------------- normal form: inline non-anchor helpers
+#
+# Extracting a few lines into a private helper (or inlining one) must not change any verdict.  Rules are therefore run on a
+# normal form of every body in which calls to crate-local functions that are NOT anchors are spliced in (MIR inlining: locals
+# and blocks renumbered, arguments assigned to the callee's parameter locals, `return` replaced by an assignment of the
+# callee's _0 to the call's destination and a goto to the call's target).  Anchors are the functions the rules talk about:
+# public API, trait-impl methods, methods of the small accessor types, and every function resolved as a role.
+
+def _shift_place(p, lo, bo):
+    q = dict(p)
+    q["local"] = p["local"] + lo
+    pr = []
+    for pe in p["proj"]:
+        if pe["k"] == "index":
+            pe = dict(pe)
+            pe["local"] = pe["local"] + lo
+        pr.append(pe)
+    q["proj"] = pr
+    return q
+
+
+def _shift_operand(o, lo, bo):
+    if o["k"] in ("copy", "move"):
+        q = dict(o)
+        q["place"] = _shift_place(o["place"], lo, bo)
+        return q
+    return o
+
+
+def _shift_rvalue(rv, lo, bo):
+    q = dict(rv)
+    for k in ("place",):
+        if k in rv:
+            q[k] = _shift_place(rv[k], lo, bo)
+    for k in ("op", "l", "r", "x"):
+        if k in rv and isinstance(rv[k], dict):
+            q[k] = _shift_operand(rv[k], lo, bo)
+    if "ops" in rv:
+        q["ops"] = [_shift_operand(o, lo, bo) for o in rv["ops"]]
+    return q
+
+
+def _shift_term(t, lo, bo):
+    q = dict(t)
+    k = t["k"]
+    if "target" in t and t["target"] is not None:
+        q["target"] = t["target"] + bo
+    if k == "switch":
+        q["discr"] = _shift_operand(t["discr"], lo, bo)
+        q["targets"] = [[v, b + bo] for v, b in t["targets"]]
+        q["otherwise"] = t["otherwise"] + bo
+    elif k in ("call", "tailcall"):
+        q["func"] = _shift_operand(t["func"], lo, bo) if t["func"]["k"] in ("copy", "move") else t["func"]
+        q["args"] = [_shift_operand(a, lo, bo) for a in t["args"]]
+        if "dest" in t:
+            q["dest"] = _shift_place(t["dest"], lo, bo)
+    elif k == "drop":
+        q["place"] = _shift_place(t["place"], lo, bo)
+    elif k == "assert":
+        q["cond"] = _shift_operand(t["cond"], lo, bo)
+        for kk in ("len", "index"):
+            if kk in t:
+                q[kk] = _shift_operand(t[kk], lo, bo)
+    return q
+
+
+def inline_body(crate, bj, inlinable, depth=0, _stack=()):
+    """return a body JSON in which every direct call of an inlinable crate-local function is spliced in"""
+    if depth > 4:
+        return bj
+    blocks = [dict(b) for b in bj["blocks"]]
+    locals_ = list(bj["locals"])
+    debug = list(bj["debug"])
+    changed = False
+    bi = 0
+    n0 = len(blocks)
+    while bi < len(blocks):
+        blk = blocks[bi]
+        t = blk["term"]
+        if t["k"] == "call" and t["func"]["k"] == "const" and "fn" in t["func"] and not blk["cleanup"] and t.get("target") is not None:
+            c = Callee(t["func"]["fn"])
+            bp = c.body_path
+            if bp and bp in inlinable and bp != bj["path"] and bp not in _stack:
+                fj = inline_body(crate, inlinable[bp], inlinable, depth + 1, _stack + (bj["path"],))
+                if len(t["args"]) == fj["arg_count"]:
+                    lo = len(locals_)
+                    bo = len(blocks)
+                    locals_.extend(fj["locals"])
+                    for d in fj["debug"]:
+                        if "local" in d["at"]:
+                            dd = dict(d)
+                            dd["at"] = _shift_place(d["at"], lo, bo)
+                            dd["arg"] = None
+                            debug.append(dd)
+                    # argument assignments
+                    stmts = list(blk["stmts"])
+                    for ai, a in enumerate(t["args"]):
+                        stmts.append({"k": "assign", "lhs": {"local": lo + 1 + ai, "proj": [], "ty": fj["locals"][1 + ai]["ty"]},
+                                      "rv": {"k": "use", "op": a}, "span": t["span"], "exp": t.get("exp", False)})
+                    newblk = dict(blk)
+                    newblk["stmts"] = stmts
+                    newblk["term"] = {"k": "goto", "target": bo, "span": t["span"], "exp": t.get("exp", False)}
+                    blocks[bi] = newblk
+                    for fb in fj["blocks"]:
+                        nb = {"cleanup": fb["cleanup"], "stmts": [], "term": None}
+                        for st in fb["stmts"]:
+                            if st["k"] == "assign":
+                                st2 = dict(st)
+                                st2["lhs"] = _shift_place(st["lhs"], lo, bo)
+                                st2["rv"] = _shift_rvalue(st["rv"], lo, bo)
+                                nb["stmts"].append(st2)
+                            elif st["k"] == "setdiscr":
+                                st2 = dict(st)
+                                st2["lhs"] = _shift_place(st["lhs"], lo, bo)
+                                nb["stmts"].append(st2)
+                            else:
+                                nb["stmts"].append(st)
+                        ft = fb["term"]
+                        if ft["k"] == "return":
+                            nb["stmts"].append({"k": "assign", "lhs": t["dest"],
+                                                "rv": {"k": "use", "op": {"k": "move", "place": {"local": lo, "proj": [], "ty": fj["locals"][0]["ty"]}}},
+                                                "span": ft["span"], "exp": ft.get("exp", False)})
+                            nb["term"] = {"k": "goto", "target": t["target"], "span": ft["span"], "exp": ft.get("exp", False)}
+                        else:
+                            nb["term"] = _shift_term(ft, lo, bo)
+                        blocks.append(nb)
+                    changed = True
+        bi += 1
+    if not changed:
+        return bj
+    out = dict(bj)
+    out["blocks"] = blocks
+    out["locals"] = locals_
+    out["debug"] = debug
+    out["inlined"] = True
+    return out
+
+
+def normalise_crate(crate, anchors):
+    """replace every body by its normal form; non-anchor crate-local functions that were spliced into all their callers are
+    removed from crate.bodies (kept in crate.helper_bodies)"""
+    raw = {p: b.j for p, b in crate.bodies.items()}
+    inlinable = {p: j for p, j in raw.items() if j["kind"] in ("AssocFn", "Fn") and p not in anchors}
+    newj = {}
+    for p, j in raw.items():
+        if j["kind"] == "Promoted":
+            newj[p] = j
+        else:
+            newj[p] = inline_body(crate, j, inlinable)
+    crate.helper_bodies = {}
+    crate.bodies = {}
+    for p, j in newj.items():
+        b = Body(crate, j)
+        if p in inlinable:
+            crate.helper_bodies[p] = b
+        else:
+            crate.bodies[p] = b
+    # closures defined inside inlined-away helpers stay reachable by path (FnView looks them up in crate.bodies)
+    # closures by the body that CREATES them (after inlining a helper's closures are created in its callers)
+    crate.closures_of = {}
+    for b in crate.bodies.values():
+        for blk in b.blocks:
+            for st in blk["stmts"]:
+                if st["k"] == "assign" and st["rv"]["k"] == "aggregate" and st["rv"].get("akind") == "closure":
+                    cb = crate.bodies.get(st["rv"]["closure"])
+                    if cb is not None and cb not in crate.closures_of.get(b.path, []):
+                        crate.closures_of.setdefault(b.path, []).append(cb)
+    crate._field_writes = None
+    crate.inlined_helpers = sorted(inlinable)
+    return crate
